@@ -510,6 +510,40 @@ func ruleCompletionScope(c *Ctx, rule string) {
 			}
 		}
 	}
+	// the collector dereferences a pointer type before enumerating: the method set is attached to the element type
+	derefs := false
+	ast.Inspect(collectorLit.Body, func(nd ast.Node) bool {
+		ifs, ok := nd.(*ast.IfStmt)
+		if !ok {
+			return true
+		}
+		b, ok := unparen(ifs.Cond).(*ast.BinaryExpr)
+		if !ok || b.Op != token.EQL {
+			return true
+		}
+		call, ok := unparen(b.X).(*ast.CallExpr)
+		if !ok {
+			return true
+		}
+		s, ok := unparen(call.Fun).(*ast.SelectorExpr)
+		if !ok || s.Sel.Name != "Kind" || identOf(s.X) == nil || info.Uses[identOf(s.X)] != subj {
+			return true
+		}
+		if o := usedObj(info, b.Y); o == nil || o.Name() != "Ptr" {
+			return true
+		}
+		for _, st := range ifs.Body.List {
+			if as, ok := st.(*ast.AssignStmt); ok && len(as.Lhs) == 1 && identOf(as.Lhs[0]) != nil && info.Uses[identOf(as.Lhs[0])] == subj {
+				if c2, ok := unparen(as.Rhs[0]).(*ast.CallExpr); ok {
+					if s2, ok := unparen(c2.Fun).(*ast.SelectorExpr); ok && s2.Sel.Name == "Elem" && identOf(s2.X) != nil && info.Uses[identOf(s2.X)] == subj {
+						derefs = true
+					}
+				}
+			}
+		}
+		return true
+	})
+	c.Ob(rule, "fast.Comp.listFieldsAndMethods/collector-deref", collectorLit, derefs, "the method collector replaces a pointer type by its element type before enumerating methods (an embedded *T promotes the methods of T)")
 	c.Ob(rule, "fast.Comp.listFieldsAndMethods/collector-subject", collectorLit, okSubj && isParam, "the method collector tests, dereferences and enumerates one and the same type: its own parameter ("+strings.Join(detail, ", ")+")")
 	// calls of the collector inside the field visitor are guarded by field.Anonymous
 	n := 0
@@ -653,13 +687,95 @@ func ruleCompletionSplit(c *Ctx, rule string) {
 	c.Ob(rule, "fast.Interp.CompleteWords/head-prefix", fd, okHead, "the head is only ever a prefix of the text before the cursor")
 }
 
+// ruleWorklistHandover (W1): a breadth-first walk hands its work list over (`curr = next`) and then fills a
+// new one while ranging over the old: the new list must not share the old one's backing array, i.e. after the
+// handover the source variable is a fresh variable of the loop body, or is reset to nil / a new slice, never
+// re-sliced to length 0.
+func ruleWorklistHandover(c *Ctx, rule string, short string, files ...string) {
+	pk := c.P.Pkg(short)
+	if pk == nil {
+		c.Ob(rule, short, nil, false, "package not loaded")
+		return
+	}
+	info := pk.TypesInfo
+	want := map[string]bool{}
+	for _, f := range files {
+		want[f] = true
+	}
+	n := 0
+	for _, fd := range c.P.FuncsOf(short) {
+		if fd.Body == nil || !want[baseName(c.P.Fset, fd)] {
+			continue
+		}
+		fd := fd
+		ast.Inspect(fd.Body, func(nd ast.Node) bool {
+			loop, ok := nd.(*ast.ForStmt)
+			if !ok {
+				return true
+			}
+			for i, st := range loop.Body.List {
+				as, ok := st.(*ast.AssignStmt)
+				if !ok || as.Tok != token.ASSIGN || len(as.Lhs) != 1 || len(as.Rhs) != 1 {
+					continue
+				}
+				a, b := identOf(as.Lhs[0]), identOf(as.Rhs[0])
+				if a == nil || b == nil || b.Name == "nil" {
+					continue
+				}
+				ao, bo := info.Uses[a], info.Uses[b]
+				if ao == nil || bo == nil || ao == bo {
+					continue
+				}
+				if _, isSl := ao.Type().Underlying().(*types.Slice); !isSl {
+					continue
+				}
+				if _, isSl := bo.Type().Underlying().(*types.Slice); !isSl {
+					continue
+				}
+				// b is appended to somewhere in the loop
+				appended := false
+				ast.Inspect(loop.Body, func(m ast.Node) bool {
+					if x, ok := m.(*ast.AssignStmt); ok && len(x.Lhs) == 1 && identOf(x.Lhs[0]) != nil && info.Uses[identOf(x.Lhs[0])] == bo {
+						if call, ok := unparen(x.Rhs[0]).(*ast.CallExpr); ok && exprString(call.Fun) == "append" {
+							appended = true
+						}
+					}
+					return true
+				})
+				if !appended {
+					continue
+				}
+				n++
+				fresh := bo.Pos() > loop.Body.Pos() && bo.Pos() < loop.Body.End()
+				if !fresh && i+1 < len(loop.Body.List) {
+					if nx, ok := loop.Body.List[i+1].(*ast.AssignStmt); ok && len(nx.Lhs) == 1 && identOf(nx.Lhs[0]) != nil && info.Uses[identOf(nx.Lhs[0])] == bo && len(nx.Rhs) == 1 {
+						switch r := unparen(nx.Rhs[0]).(type) {
+						case *ast.Ident:
+							fresh = r.Name == "nil"
+						case *ast.CompositeLit:
+							fresh = true
+						case *ast.CallExpr:
+							fresh = exprString(r.Fun) == "make"
+						}
+					}
+				}
+				c.Ob(rule, funcKey(pk, fd)+"/"+a.Name+"="+b.Name, as, fresh, "after the work list is handed over, the list being filled is a new slice (a variable of the loop body, nil, make or a literal), so it cannot overwrite the one being visited")
+			}
+			return true
+		})
+	}
+	if n < 3 {
+		c.Ob(rule, short+"/handovers", nil, false, fmt.Sprintf("%d work-list handovers found, at least 3 expected", n))
+	}
+}
+
 func init() {
 	register(&PropDef{
 		ID:    "C36",
 		Title: "Code completion returns exactly the matching in-scope names, sorted and unique",
 		Explanation: "Decided (structural clauses): Q1 every name appended to a completion list in completeWord, completeLastWord and listFieldsAndMethods is guarded by the prefix test against the typed word (len(name) >= len(word) && name[:len(word)] == word, with the size variable defined as len(word) and never reassigned); " +
 			"Q2 every result of completeWord / completeLastWord is returned through sortUnique and the entry points Comp.CompleteWords / completeWords only forward such results or nil; Q3 sortUnique sorts its argument before the duplicate-removal loop, which keeps an element exactly when it differs from the previously kept one; " +
-			"Q4 scope: completeWord walks every scope outwards (co = c; co != nil; co = co.Outer) over both Binds and Types, plus the keywords; members of an imported package are its Binds and Types; the methods of a field's type are offered only when the field is embedded, and the method collector tests, dereferences and enumerates one and the same type (its parameter); " +
+			"Q4 scope: completeWord walks every scope outwards (co = c; co != nil; co = co.Outer) over both Binds and Types, plus the keywords; members of an imported package are its Binds and Types; the methods of a field's type are offered only when the field is embedded, and the method collector dereferences a pointer type and tests, dereferences and enumerates one and the same type (its parameter); W1 the breadth-first walks over embedded fields in xreflect/lookup.go (VisitFields, FieldByName, MethodByName) never fill a work list that shares its backing array with the one being visited; " +
 			"Q6 Interp.CompleteWords splits the line at the clamped cursor (head = line[:pos], tail = line[pos:]), never modifies the tail and only shortens the head to a prefix. " +
 			"Not decided: that every valid name is found by TryLookupFieldOrMethod-based navigation of dotted chains, unexported members of other packages, the exact head after trimming the partial identifier.",
 		Assumptions: []string{"sort.Strings sorts", "xreflect.Type.Method enumerates the method set of a named type"},
@@ -668,6 +784,7 @@ func init() {
 			ruleSortedUnique(c, "Q2-sorted-unique")
 			ruleCompletionScope(c, "Q4-completion-scope")
 			ruleCompletionSplit(c, "Q6-head-tail")
+			ruleWorklistHandover(c, "W1-worklist-handover", "xreflect", "lookup.go")
 			c.Floor("Q1-prefix-guard", 8)
 		}},
 		Technique: "AST/type-resolved custom analysis: guard-condition check on every append site, must-pass-through (sortUnique) on returns, chain-walk shape, subject-consistency of a closure, slice-index agreement",
@@ -678,6 +795,8 @@ func init() {
 			{Name: "only-innermost-scope-searched", File: "fast/repl.go", Old: "for co := c; co != nil; co = co.Outer {\n\t\t\tfor name := range co.Binds {\n\t\t\t\tif len(name) >= size", New: "for co := c; co != nil; co = nil {\n\t\t\tfor name := range co.Binds {\n\t\t\t\tif len(name) >= size"},
 			{Name: "methods-of-plain-fields-promoted", File: "fast/selector.go", Old: "\t\t\tif field.Anonymous {\n\t\t\t\t// only the methods of embedded fields are promoted\n\t\t\t\tcollectMethods(field.Type)\n\t\t\t}", New: "\t\t\tcollectMethods(field.Type)"},
 			{Name: "collector-tests-captured-type", File: "fast/selector.go", Old: "\t\tif typ.Kind() == r.Ptr {\n\t\t\ttyp = typ.Elem()\n\t\t\tif typ.Kind() == r.Interface {", New: "\t\tif t.Kind() == r.Ptr {\n\t\t\tt = t.Elem()\n\t\t\tif t.Kind() == r.Interface {"},
+			{Name: "collector-does-not-dereference", File: "fast/selector.go", Old: "\t\tif typ.Kind() == r.Ptr {\n\t\t\ttyp = typ.Elem()\n\t\t\tif typ.Kind() == r.Interface {\n\t\t\t\t// ignore pointer-to-interface\n\t\t\t\treturn\n\t\t\t}\n\t\t}\n\t\tfor i, n := 0, typ.NumMethod()", New: "\t\tfor i, n := 0, typ.NumMethod()"},
+			{Name: "worklist-resliced-in-place", File: "xreflect/lookup.go", Old: "\t\tcurr = tovisit\n\t\ttovisit = nil", New: "\t\tcurr = tovisit\n\t\ttovisit = tovisit[:0]"},
 			{Name: "tail-starts-after-cursor", File: "fast/repl.go", Old: "tail = line[pos:]", New: "tail = line[pos+1:]"},
 			{Name: "package-types-not-offered", File: "fast/repl.go", Old: "\t\t\tfor name := range obj.Types {\n\t\t\t\tif len(name) >= size && name[:size] == word {\n\t\t\t\t\tcompletions = append(completions, name)\n\t\t\t\t}\n\t\t\t}\n", New: ""},
 			{Name: "dedup-keeps-duplicates", File: "fast/repl.go", Old: "if s := vec[i]; s != prev {", New: "if s := vec[i]; s != prev || i == 1 {"},
